@@ -70,12 +70,32 @@ let show_rt (t : rtuple) =
 let show_l l = "[" ^ String.concat " " (List.map show_rt l) ^ "]"
 let show_obs = function OList l -> show_l l | ONone -> "none" | OSome t -> "some " ^ show_rt t | OErr -> "error"
 
-(* one reader operation: (diff option, prop option, known option) *)
+(* Cross-check of extraction: with ORACLE_DUMP=<file> the numbers the EXTRACTED model computed for
+   every case are appended to that file (sizes and checksums of the model results of the five
+   combined reads, the shape predicates, the merge contract; checksums of all index entries; the
+   trigger predicates of the api cases that have a mismatch); bin/coqreplay_c04.py recomputes the
+   same numbers inside Coq with vm_compute. *)
+let dump_chan = match Sys.getenv_opt "ORACLE_DUMP" with
+  | Some p when p <> "" -> Some (open_out_gen [Open_append; Open_creat] 0o644 p)
+  | _ -> None
+let b2i b = if b then 1 else 0
+let ht (t : rtuple) : int =
+  List.fold_left (fun acc x -> (acc * 131 + x) mod 1000000007) 0
+    [int_of_n t.rt_obj; int_of_n t.rt_otype; int_of_n t.rt_rel; int_of_n t.rt_user.u_str; int_of_n t.rt_user.u_type;
+     b2i t.rt_user.u_wild; int_of_n t.rt_user.u_rel; int_of_n t.rt_cond; int_of_n t.rt_ctx]
+let hl (l : rtuple list) : int = List.fold_left (fun acc t -> (acc * 131 + ht t + 1) mod 1000000007) 0 l
+let dump_line id (nums : int list) =
+  match dump_chan with
+  | Some ch -> output_string ch (id ^ " " ^ String.concat " " (List.map string_of_int nums) ^ "\n"); flush ch
+  | None -> ()
+
+(* one reader operation: (diff option, prop option, known option, numbers of the model result) *)
 let reader_op (ctx : rtuple list) (unique : bool) (ov : value) =
   match as_list ov with
   | [op; got; under; union] ->
     let got = dec_obs got and under = dec_obs under and union = dec_obs union in
     let diff = ref None and prop = ref None and known = ref None in
+    let nums = ref [0; 999999; 0; 0; 0] in   (* opcode; size; checksum; shape predicate; merge contract *)
     let set_diff what model =
       diff := Some (Printf.sprintf "%s: implementation %s, model %s (wrapped reader gave %s)" what (show_obs got) model (show_obs under)) in
     let judge_union what (flag : string option) =
@@ -89,6 +109,7 @@ let reader_op (ctx : rtuple list) (unique : bool) (ov : value) =
        (match got, under with
         | OList g, OList un ->
           let m = combined_read_over un ctx f in
+          nums := [1; List.length m; hl m; b2i (read_shape_ok f); 0];
           if not (same_multiset g m) then set_diff "Read" (show_l m);
           (match union with
            | OList all when unique && not (same_multiset g all) ->
@@ -103,7 +124,7 @@ let reader_op (ctx : rtuple list) (unique : bool) (ov : value) =
        (match got, under with
         | OList g, OList un ->
           let m = combined_read_page un ctx f in
-          ignore m;
+          nums := [2; List.length m; hl m; b2i (read_shape_ok f); 0];
           if not (same_multiset g un) then set_diff "ReadPage" (show_l un);
           (match union with
            | OList all when unique && not (same_multiset g all) -> judge_union "ReadPage" (Some "read_page_ignores_ctx")
@@ -116,6 +137,8 @@ let reader_op (ctx : rtuple list) (unique : bool) (ov : value) =
        (match opt got, opt under with
         | Some g, Some un ->
           let m = combined_read_user_tuple_over un ctx k in
+          (let ml = match m with Some t -> [t] | None -> [] in
+           nums := [3; List.length ml; hl ml; b2i (rut_shape_ok k cs); 0]);
           if g <> m then set_diff "ReadUserTuple" (match m with None -> "none" | Some t -> "some " ^ show_rt t);
           (match opt union with
            | Some all when unique && g <> all ->
@@ -128,6 +151,7 @@ let reader_op (ctx : rtuple list) (unique : bool) (ov : value) =
        (match got, under with
         | OList g, OList un ->
           let m = combined_read_userset_tuples_over un ctx f in
+          nums := [4; List.length m; hl m; b2i (usersets_shape_ok f); 0];
           if not (same_multiset g m) then set_diff "ReadUsersetTuples" (show_l m);
           (match union with
            | OList all when unique && not (same_multiset g all) ->
@@ -148,6 +172,7 @@ let reader_op (ctx : rtuple list) (unique : bool) (ov : value) =
        (match got, under with
         | OList g, OList un ->
           let m = combined_rswu_over un ctx f sorted in
+          nums := [5; List.length m; hl m; b2i (rswu_shape_ok f); b2i (sorted_result_ok_over un ctx f g)];
           if sorted then begin
             if not (sorted_result_ok_over un ctx f g) then set_diff "ReadStartingWithUser(sorted): result violates the merge contract" (show_l m)
             else if List.length ctx <= 12 && g <> m then set_diff "ReadStartingWithUser(sorted)" (show_l m)
@@ -165,7 +190,7 @@ let reader_op (ctx : rtuple list) (unique : bool) (ov : value) =
            | _ -> ())
         | _ -> set_diff "ReadStartingWithUser" "a list")
      | _ -> failwith "op");
-    (!diff, !prop, !known)
+    (!diff, !prop, !known, !nums)
   | _ -> failwith "reader op entry"
 
 let impl_s = function 0 -> "allowed" | 1 | 2 -> "denied" | 3 -> "condition-error" | 4 -> "depth-error" | 5 -> "error"
@@ -174,18 +199,21 @@ let api_name = function 0 -> "Check" | 1 -> "BatchCheck" | 2 -> "ListObjects" | 
 let eng_name = function 0 -> "default" | 1 -> "optimised" | _ -> "weighted-graph/pipeline"
 let kind_name = function 0 -> "also without caches" | 1 -> "only with warm caches" | _ -> "unstable"
 
-let f _id vs =
+let f id vs =
   match vs with
   | [I "1"; stored; ctx; unique; ops] ->
-    let _stored = dec_rts stored in
+    let stored = dec_rts stored in
+    let allnums = ref [] in
     let ctx = dec_rts ctx in
     let unique = as_bool unique in
     let diffs = ref [] and props = ref [] and knowns = ref [] in
     List.iter (fun ov ->
-        let (d, p, k) = reader_op ctx unique ov in
+        let (d, p, k, ns) = reader_op ctx unique ov in
+        allnums := List.rev_append ns !allnums;
         (match d with Some x -> diffs := x :: !diffs | None -> ());
         (match p with Some x -> props := x :: !props | None -> ());
         (match k with Some (fl, x) -> knowns := (fl ^ " " ^ x) :: !knowns | None -> ())) (as_list ops);
+    dump_line id (1 :: b2i (keys_unique (stored @ ctx)) :: b2i (disjoint_keys stored ctx) :: List.rev !allnums);
     (match List.rev !diffs, List.rev !props, List.rev !knowns with
      | d :: _, _, _ -> "DIFF " ^ d
      | [], p :: _, _ -> "PROP " ^ p
@@ -193,7 +221,7 @@ let f _id vs =
      | [], [], [] -> "OK")
   | [I "2"; model; conds; tuples; atoms; maxdepth; mms] ->
     let mms = as_list mms in
-    if mms = [] then "OK" else begin
+    if mms = [] then (dump_line id [2; 0]; "OK") else begin
       let m = dec_model model in
       let cs = List.map (fun c -> n_of_int (as_int c)) (as_list conds) in
       let store = List.map dec_tuple (as_list tuples) in
@@ -203,6 +231,25 @@ let f _id vs =
       let recursive = lazy (model_recursive m) in
       let has_e = lazy (List.exists (fun t -> t.t_ceval = E) store) in (* valid or not: engines differ in what they evaluate first *)
       let props = ref [] and knowns = ref [] in
+      (* numbers for the cross-check: per mismatch, how many implicated subjects have the wildcard /
+         direct conflict, and the V1 trigger bits of the first implicated atom *)
+      (let per = List.concat_map (fun mv ->
+           match as_list mv with
+           | [_; api; eng; _; _; _; _; atomsv] ->
+             let atoms = List.map (fun av ->
+                 match as_list av with
+                 | [s; px; ot; oi; r] -> (dec_subject s, List.map dec_pair (as_list px), mk_obj (as_int ot) (as_int oi), n_of_int (as_int r))
+                 | _ -> failwith "atom entry") (as_list atomsv) in
+             let nconf = List.length (List.filter (fun (s, _, _, _) -> wild_direct_conflict m cs store s) atoms) in
+             let bits = match atoms with
+               | (s, px, o, r) :: _ when as_int eng <> 2 && as_int api <> 4 ->
+                 let (_, tr) = check_top m cs store s px md fuel o r in
+                 b2i tr.tr_excl_sub_cycle + 2 * b2i tr.tr_swallow
+               | _ -> 0 in
+             [nconf; bits]
+           | _ -> failwith "mismatch entry") mms in
+       dump_line id (2 :: 1 :: b2i (model_recursive m) :: List.length (List.filter (fun t -> lenient_cond m cs t) store)
+                     :: b2i (stratified m) :: per));
       List.iter (fun mv ->
           match as_list mv with
           | [_mi; api; eng; kind; got; want; ctxidx; atomsv] ->
@@ -263,10 +310,13 @@ let f _id vs =
   | [I "3"; ctx; by_user; by_obj] ->
     let ctx = dec_rts ctx in
     let diffs = ref [] in
+    let nu = ref 0 and hu = ref 0 and no = ref 0 and ho = ref 0 in
+    let acc n h (m : rtuple list) = (if m <> [] then incr n); h := (!h * 131 + hl m + 1) mod 1000000007 in
     List.iter (fun e ->
         match as_list e with
         | [u; r; ot; ok; got] ->
           let m = index_by_user ctx ((n_of_int (as_int u), n_of_int (as_int r)), n_of_int (as_int ot)) in
+          acc nu hu m;
           let got = dec_rts got in
           if got <> m || as_bool ok <> (m <> []) then
             diffs := Printf.sprintf "by-user index (u%d,r%d,t%d): implementation %s ok=%b, model %s" (as_int u) (as_int r) (as_int ot)
@@ -276,11 +326,13 @@ let f _id vs =
         match as_list e with
         | [o; r; ut; ur; ok; got] ->
           let m = index_by_object ctx ((n_of_int (as_int o), n_of_int (as_int r)), (n_of_int (as_int ut), n_of_int (as_int ur))) in
+          acc no ho m;
           let got = dec_rts got in
           if got <> m || as_bool ok <> (m <> []) then
             diffs := Printf.sprintf "by-object index (o%d,r%d,t%d#r%d): implementation %s ok=%b, model %s" (as_int o) (as_int r) (as_int ut) (as_int ur)
                 (show_l got) (as_bool ok) (show_l m) :: !diffs
         | _ -> failwith "by_object entry") (as_list by_obj);
+    dump_line id [3; b2i (keys_unique ctx); !nu; !hu; !no; !ho];
     (match List.rev !diffs with d :: _ -> "DIFF " ^ d | [] -> "OK")
   | _ -> "DIFF malformed-record"
 
